@@ -132,7 +132,7 @@ PROPS = {
     "C15": plain([npart("janitor", "^TestC15$", {"shards": 4, "checks": 1, "timeout": 900, "env": {"VERIF_C15_CONFIGS": 16}},
                         {"shards": 4, "checks": 1, "timeout": 3 * 3600, "env": {"VERIF_C15_CONFIGS": 400}})],
                  "Cases are generated configurations (constructor variant x Cache/CacheOf x cleanup interval in {-5,0,2,3,5,10,20} ms x 1-60 caches x 0-50 entries with 1 ms TTL x 0-50 "
-                 "never-expiring entries x callback yes/no) run in real time. Oracle: interval > 0: with no user call on the keys Count() drops to the never-expiring population within "
+                 "never-expiring entries x callback yes/no x 1-6 waves of further expiring entries stored either the moment a janitor pass is seen at work (first removal observed: mid-sweep) or after a pause of 0.3-15 ms x 0/50000/150000 never-expiring ballast entries that stretch every pass to milliseconds) run in real time. Oracle: interval > 0: with no user call on the keys Count() drops to the never-expiring population within "
                  "max(200 intervals, 5 s) and the callback ledger holds every expired key exactly once and nothing else; interval <= 0: construction starts no goroutine, Count() is "
                  "unchanged and no callback fires during a 60 ms window, DeleteExpired then cleans exactly; finally, after dropping all references and polling runtime.GC(), "
                  "runtime.NumGoroutine() is back at its baseline and a finalizer sentinel stored in a cache of the same kind has been released, within 10 s. A missed deadline is "
